@@ -659,8 +659,17 @@ def post_batch(tier: str, seed: int, total: dict):
                 problems.append({"seed": s, "spec": spec, "problem": msg})
 
     in_scratch(work)
+    direct = []
     for p in problems[:3]:
-        total["violations"].append({"run": -1, "seed": p["seed"], "spec": p["spec"],
-                                    "violation": {"clause": "real-pool", "detail": p["problem"],
-                                                  "signature": f"{PROP}:real-pool:nondeterministic"}})
-    return {"real_pool_runs": done, "real_pool_disagreements": len(problems), "real_pool_wall_s": round(time.time() - t0, 1)}
+        # a run through the real pool is not replayable by seed: reported directly, with the spec, never minimised
+        import json as _json
+
+        rdir = os.environ.get("VERIF_REPLAY_DIR") or os.path.join(os.path.dirname(os.path.dirname(os.path.abspath(__file__))), "replays")
+        os.makedirs(rdir, exist_ok=True)
+        path = os.path.join(rdir, f"{PROP}-realpool-{p['seed']}.json")
+        with open(path, "w") as f:
+            _json.dump({"property": PROP, "kind": "real ProcessPoolExecutor run (nondeterministic: not replayable by seed)", "spec": p["spec"],
+                        "problem": p["problem"], "reproduce": "python -c 'from sim import c18_parproc as m, json; print(m.real_pool_run(json.load(open(PATH))[\"spec\"]))'"}, f, indent=1)
+        direct.append({"signature": f"{PROP}:real-pool:nondeterministic", "replay": path, "detail": p["problem"], "seed": p["seed"]})
+    return {"real_pool_runs": done, "real_pool_disagreements": len(problems), "real_pool_wall_s": round(time.time() - t0, 1),
+            "direct_violations": direct}
